@@ -53,6 +53,9 @@ func checkC09(ctx *Ctx, r *Report) {
 	c09ConstraintsThroughReferences(ctx, r)
 	c09FourthRound(ctx, r)
 	c08CollapsedUnionKeepsConstraints(ctx, r)
+	c09CueNumberConstraints(ctx, r)
+	c09GoEnvelopeConstants(ctx, r)
+	c09PythonUnionCollectionBranches(ctx, r)
 }
 
 // (1a) order of derivation, veneers, nil checks
@@ -1249,4 +1252,263 @@ func c09FourthRound(ctx *Ctx, r *Report) {
 	if !found {
 		r.Undecided("anchor lost: option.StructFieldsAsArgumentsAction")
 	}
+}
+
+// c09CueNumberConstraints: the CUE front-end reads the constraints of a number from the text cue/format prints for it,
+// split on " & ". (a) The filter that decides which parts are constraints lets through every leading byte the operator
+// decoder has a branch for — a branch the filter never feeds is a constraint that is silently dropped (`!=0`).
+// (b) CUE prints `int & >=0` as `uint`, `int & >=0 & <=255` as `uint8`…: the loop over the parts consults a table of
+// these names, or the bound disappears whenever the number is not given that type (`int & >=0 | *5`).
+func c09CueNumberConstraints(ctx *Ctx, r *Report) {
+	p := ctx.Pkg("internal/simplecue")
+	fn := ctx.LookupMethod("internal/simplecue", "generator", "declareNumberConstraints")
+	fd, _ := ctx.DeclOf(fn)
+	if p == nil || fd == nil {
+		r.Undecided("anchor lost: simplecue.generator.declareNumberConstraints")
+		return
+	}
+	info := p.TypesInfo
+	charOf := func(e ast.Expr) (string, bool) {
+		if tv, ok := info.Types[e]; ok && tv.Value != nil && tv.Value.Kind() == constant.Int {
+			if v, ok := constant.Int64Val(tv.Value); ok && v > 0 && v < 128 {
+				return string(rune(v)), true
+			}
+		}
+		return "", false
+	}
+	firstByteTests := func(n ast.Node, op token.Token) map[string]bool {
+		out := map[string]bool{}
+		ast.Inspect(n, func(m ast.Node) bool {
+			be, ok := m.(*ast.BinaryExpr)
+			if !ok || be.Op != op {
+				return true
+			}
+			ix, ok := ast.Unparen(be.X).(*ast.IndexExpr)
+			if !ok {
+				return true
+			}
+			if tv, ok := info.Types[ix.Index]; !ok || tv.Value == nil || tv.Value.String() != "0" {
+				return true
+			}
+			if c, ok := charOf(be.Y); ok {
+				out[c] = true
+			}
+			return true
+		})
+		return out
+	}
+	// the decoder: the function literal whose result list holds an ast.Op
+	var decoder *ast.FuncLit
+	var loop *ast.RangeStmt
+	ast.Inspect(fd.Body, func(m ast.Node) bool {
+		switch x := m.(type) {
+		case *ast.FuncLit:
+			if x.Type.Results != nil {
+				for _, res := range x.Type.Results.List {
+					if namedName(info.TypeOf(res.Type)) == "Op" {
+						decoder = x
+					}
+				}
+			}
+			return false
+		case *ast.RangeStmt:
+			if loop == nil {
+				loop = x
+			}
+		}
+		return true
+	})
+	if decoder == nil || loop == nil {
+		r.Undecided("anchor changed: declareNumberConstraints has no operator decoder / no loop over the parts")
+		return
+	}
+	decoded := firstByteTests(decoder.Body, token.EQL)
+	var filter *ast.IfStmt
+	for _, st := range loop.Body.List {
+		if is, ok := st.(*ast.IfStmt); ok && endsInExit(is.Body) && len(firstByteTests(is.Cond, token.NEQ)) > 0 {
+			filter = is
+		}
+	}
+	if filter == nil || len(decoded) == 0 {
+		r.Undecided("anchor changed: declareNumberConstraints no longer filters the parts on their first byte")
+		return
+	}
+	allowed := firstByteTests(filter.Cond, token.NEQ)
+	// reviewed: `==` is not a unary operator of CUE (an equality constraint is the value itself)
+	notCue := map[string]string{"=": "`==x` is not a CUE constraint: the value is written `x`"}
+	var chars []string
+	for c := range decoded {
+		chars = append(chars, c)
+	}
+	sort.Strings(chars)
+	for _, c := range chars {
+		if why, ok := notCue[c]; ok {
+			r.OK("frontier/cue-number-operators-read", "simplecue.declareNumberConstraints feeds the decoder parts starting with "+c, filter.Pos(), "reviewed: "+why)
+			continue
+		}
+		r.Check(allowed[c], "frontier/cue-number-operators-read", "simplecue.declareNumberConstraints feeds the decoder parts starting with "+c, filter.Pos(), "the filter lets these parts through",
+			fmt.Sprintf("the operator decoder has a branch for parts starting with %q and the filter in front of it drops them: `divisor: int64 & !=0` reaches the IR without its constraint — Divisor(0).Build() reports nothing, Validate() accepts 0", c))
+	}
+	r.Count("leading bytes the CUE operator decoder understands", len(chars))
+	r.Floor("leading bytes the CUE operator decoder understands", 4)
+	// (b)
+	table := false
+	ast.Inspect(loop.Body, func(m ast.Node) bool {
+		ix, ok := m.(*ast.IndexExpr)
+		if !ok {
+			return true
+		}
+		id, ok := ast.Unparen(ix.X).(*ast.Ident)
+		if !ok {
+			return true
+		}
+		v, ok := objOf(info, id).(*types.Var)
+		if !ok || v.Parent() != p.Types.Scope() {
+			return true
+		}
+		if _, isMap := v.Type().Underlying().(*types.Map); !isMap {
+			return true
+		}
+		// the keys of the table
+		for _, f := range p.Syntax {
+			ast.Inspect(f, func(k ast.Node) bool {
+				vs, ok := k.(*ast.ValueSpec)
+				if !ok {
+					return true
+				}
+				for i, nm := range vs.Names {
+					if info.Defs[nm] != v || i >= len(vs.Values) {
+						continue
+					}
+					if cl, ok := vs.Values[i].(*ast.CompositeLit); ok {
+						for _, el := range cl.Elts {
+							if kv, ok := el.(*ast.KeyValueExpr); ok {
+								if tv, ok := info.Types[kv.Key]; ok && tv.Value != nil && tv.Value.Kind() == constant.String && constant.StringVal(tv.Value) == "uint" {
+									table = true
+								}
+							}
+						}
+					}
+				}
+				return true
+			})
+		}
+		return true
+	})
+	r.Count("tables of CUE predeclared number types", 1)
+	r.Check(table, "frontier/cue-predeclared-bounds-kept", "simplecue.declareNumberConstraints knows the predeclared number types", loop.Pos(), "the parts are looked up in a table that knows `uint`",
+		"the loop over the printed parts only understands operators: CUE prints `int & >=0 & <=100` as `uint & <=100`, and for `m: int & >=0 & <=100 | *50` (an int64 because of the default) the lower bound disappears — M(-5).Build() reports nothing")
+}
+
+// c09GoEnvelopeConstants: an envelope (`append(list, Link{Kind: "link", Title: title})`) holds one value per field. The
+// Go templates that prepare and print a *constant* of an envelope must reason on the field it goes to — its type decides
+// whether a `val<Field>` temporary is needed and what it is called — not on the target of the whole envelope (the list).
+// In "assignment_setup" and "value_envelope", inside the range over the envelope's values, some call is handed the
+// path of the value itself (`.Path`).
+func c09GoEnvelopeConstants(ctx *Ctx, r *Report) {
+	ts, err := loadTemplates(ctx, "golang")
+	if err != nil {
+		r.Undecided("templates of golang: %v", err)
+		return
+	}
+	n := 0
+	for _, define := range []string{"assignment_setup", "value_envelope"} {
+		tree := ts.trees[define]
+		if tree == nil {
+			r.Undecided("anchor lost: golang template %q", define)
+			continue
+		}
+		found, perField := false, false
+		walkTmpl(tree.Root, func(q parse.Node) bool {
+			rn, ok := q.(*parse.RangeNode)
+			if !ok || !strings.HasSuffix(strings.TrimSpace(rn.Pipe.String()), ".Values") {
+				return true
+			}
+			found = true
+			walkTmpl(rn.List, func(k parse.Node) bool {
+				text := ""
+				switch x := k.(type) {
+				case *parse.TemplateNode:
+					if x.Pipe != nil {
+						text = x.Pipe.String()
+					}
+				case *parse.ActionNode:
+					text = x.String()
+				}
+				if strings.Contains(text, "assignment_") || strings.Contains(text, "\"Assignment\"") {
+					if strings.Contains(text, "\"Path\" .Path") {
+						perField = true
+					}
+				}
+				return true
+			})
+			return false
+		})
+		if !found {
+			r.Undecided("anchor changed: golang template %q no longer ranges over the values of an envelope", define)
+			continue
+		}
+		n++
+		r.Check(perField, "skeleton/go-envelope-constant-per-field", "golang "+define+" handles the constants of an envelope", token.NoPos, ts.file[define]+": a value of the envelope is handled with its own path",
+			ts.file[define]+": every value of an envelope is prepared with the assignment of the whole envelope: for `Link: {kind: \"link\", title: string}; Dash: {links?: [...Link]}` with array_to_append + struct_fields_as_arguments the option starts with `valLinks := \"link\"` — named after the list, declared and never used; an optional constant is written `&\"olink\"`")
+	}
+	r.Count("Go templates handling envelope values", n)
+	r.Floor("Go templates handling envelope values", 2)
+}
+
+// c09PythonUnionCollectionBranches: the Python template "unfold_builders" turns the builders an option receives into the
+// objects they build. For a union argument it must also reach the branches that are a list or a map of builders
+// (`links?: Link | [...Link]`): the branch of the template that handles unions ranges over the union's branches and
+// recurses with the value type of the array branches and of the map branches.
+func c09PythonUnionCollectionBranches(ctx *Ctx, r *Report) {
+	ts, err := loadTemplates(ctx, "python")
+	if err != nil {
+		r.Undecided("templates of python: %v", err)
+		return
+	}
+	tree := ts.trees["unfold_builders"]
+	if tree == nil {
+		r.Undecided("anchor lost: python template \"unfold_builders\"")
+		return
+	}
+	var top *parse.IfNode
+	for _, n := range tree.Root.Nodes {
+		if in, ok := n.(*parse.IfNode); ok {
+			top = in
+			break
+		}
+	}
+	if top == nil {
+		r.Undecided("anchor changed: python template \"unfold_builders\" has no dispatch")
+		return
+	}
+	found := false
+	for _, b := range ifChain(top) {
+		if b.cond == nil || !strings.Contains(b.cond.String(), "IsDisjunction") {
+			continue
+		}
+		found = true
+		arrays, maps := false, false
+		walkTmpl(b.body, func(q parse.Node) bool {
+			rn, ok := q.(*parse.RangeNode)
+			if !ok || !strings.Contains(rn.Pipe.String(), "Disjunction.Branches") {
+				return true
+			}
+			for _, call := range recursiveCalls(rn.List, "unfold_builders") {
+				if strings.Contains(call["InputType"], "Array.ValueType") {
+					arrays = true
+				}
+				if strings.Contains(call["InputType"], "Map.ValueType") {
+					maps = true
+				}
+			}
+			return true
+		})
+		r.Check(arrays && maps, "skeleton/python-union-collection-branches", "python unfold_builders union branch", token.NoPos, ts.file["unfold_builders"]+": list and map branches of a union are built element by element",
+			ts.file["unfold_builders"]+": a union argument is built as a whole (`X.build()`), whatever its branches: for `links?: Link | [...Link]` the option does `links.build()` on a list — AttributeError for a valid argument — and for `see?: [...Link] | string` it stores the builders themselves in the object")
+	}
+	if !found {
+		r.Undecided("anchor changed: python template \"unfold_builders\" has no branch for unions")
+	}
+	r.Count("union branches of the Python unfold template", 1)
 }
